@@ -22,6 +22,15 @@ def ge_tests(B, left_pred, right_pred):
                 for s_ in B.blocks[bins[0][2]]["stmts"]:
                     if s_["k"] == "assign" and s_["rv"]["k"] == "bin" and s_["rv"]["op"] == bins[0][1]:
                         e = ("bin", s_["rv"]["op"], s_["rv"]["a"], s_["rv"]["b"], bins[0][2])
+        if e[0] == "discr":
+            # `if let Some(surplus) = a.checked_sub(b)`: Some exactly when a >= b
+            org = B.origins({"k": "copy", "p": e[1]})
+            cs = [o for o in org if o[0] == "call" and q.ends(o[1], "checked_sub") and not o[3]]
+            if len(cs) == 1 and len(org) == 1:
+                ca = B.blocks[cs[0][2]]["term"]["args"]
+                if len(ca) == 2 and left_pred(B.origins(ca[0])) and right_pred(B.origins(ca[1])):
+                    out.append((sb, tr, fa))
+            continue
         if e[0] != "bin":
             continue
         op, a, b = e[1], B.origins(e[2]), B.origins(e[3])
